@@ -111,8 +111,22 @@ def code_data_from_json(value: object) -> CodeData:
         # copy, so that we don't modify the nested dictionary of the argument
         tp = copy(value["type"])
         if "args" in tp:
-            tp["args"] = Args(**lists_values_to_tuples(tp["args"]))
+            tp["args"] = Args(
+                **{
+                    k: tuple(map(string_from_json, v))
+                    if isinstance(v, list)
+                    else string_from_json(v)
+                    for k, v in tp["args"].items()
+                }
+            )
+        if "docstring" in tp:
+            tp["docstring"] = string_from_json(tp["docstring"])
         value["type"] = Function(**tp)
+    for k in ("filename", "name"):
+        if k in value:
+            value[k] = string_from_json(value[k])
+    if "freevars" in value:
+        value["freevars"] = tuple(map(string_from_json, value["freevars"]))
     if "flags" in value:
         value["flags"] = frozenset(value["flags"])
     if "_additional_args" in value:
@@ -124,6 +138,16 @@ def code_data_from_json(value: object) -> CodeData:
             **lists_values_to_tuples(value["_additional_line"])
         )
     return CodeData(**lists_values_to_tuples(value))
+
+
+def string_from_json(value: object) -> str:
+    """
+    Parse a JSON value into a string. Strings which cannot be encoded as unicode,
+    because they have surrogates, are stored as the repr of the string.
+    """
+    if isinstance(value, dict):
+        return literal_eval(value["string"])
+    return cast(str, value)
 
 
 def lists_values_to_tuples(d):
@@ -155,6 +179,10 @@ def arg_from_json(value: object) -> Arg:
         raise ValueError(f"Expected dict, got {type(value)}")
     if "target" in value:
         return Jump(**value)
+    for k in ("name", "varname", "freevar", "cellvar"):
+        if isinstance(value.get(k), dict):
+            value = copy(value)
+            value[k] = string_from_json(value[k])
     if "name" in value:
         return Name(**value)
     if "varname" in value:
